@@ -86,6 +86,18 @@ def harness(ctx, args, timeout=3000):
                 return harness(ctx, sargs, timeout=timeout * 4)
             finally:
                 ctx._retried_serial = False
+        # The environment sentinel (descriptor watermark, client time-outs) discarded the run: the load of all workers
+        # together was too much for this moment - or the code under test is wasteful with connections. Either way a
+        # gentler run can still observe what it does: once more with two workers.
+        if "environment was degraded" in p.stderr and "-workers" in sargs and sargs[sargs.index("-workers") + 1] not in ("1", "2") \
+                and not getattr(ctx, "_retried_gentle", False):
+            ctx._retried_gentle = True
+            ctx.say("driver %s: environment sentinel tripped; running it again with two workers" % args[0])
+            sargs[sargs.index("-workers") + 1] = "2"
+            try:
+                return harness(ctx, sargs, timeout=timeout * 4)
+            finally:
+                ctx._retried_gentle = False
         raise Machinery("harness %s failed (%d): %s" % (args[0], p.returncode, p.stderr[-3000:]))
     try:
         return json.loads(p.stdout.strip().splitlines()[-1])
